@@ -98,7 +98,9 @@ func vfRunPair(ccfg, scfg *Config, opt vfPairOpt) *vfPair {
 	r.CS, r.SS = cli.ConnectionState(), srv.ConnectionState()
 	r.CFin = [2][12]byte{cli.clientFinished, cli.serverFinished}
 	r.SFin = [2][12]byte{srv.clientFinished, srv.serverFinished}
-	vfTrapSM2(r, scfg)
+	if opt.Edit[0] == nil && opt.Edit[1] == nil && opt.Cut[0] == 0 && opt.Cut[1] == 0 && opt.Prepare == nil {
+		vfTrapSM2(r, scfg) // an untouched conversation between two honest endpoints
+	}
 	return r
 }
 
